@@ -8,6 +8,17 @@ static DATE_REGEX: LazyLock<Regex> = LazyLock::new(|| {
     Regex::new("(\\d{4})(-|:)(\\d{1,2})(-|:)(\\d{1,2}) ?(\\d{1,2})?:?(\\d{1,2})?:?(\\d{1,2})?").unwrap()
 });
 
+/// Free-form dates ("next friday", "25 dec 2024"). chrono-english panics on some clock fields
+/// that are out of range ("62:36", "691PM", "23.68"): that is a value which cannot be parsed.
+fn parse_free_form(s: &str) -> Option<chrono::DateTime<Local>> {
+    let hook = std::panic::take_hook();
+    std::panic::set_hook(Box::new(|_| {}));
+    let parsed = std::panic::catch_unwind(|| parse_date_string(s, Local::now(), Dialect::Uk));
+    std::panic::set_hook(hook);
+
+    parsed.ok().and_then(|result| result.ok())
+}
+
 pub fn parse_datetime(s: &str) -> Result<(NaiveDateTime, NaiveDateTime), String> {
     if s == "today" {
         let date = Local::now().date_naive();
@@ -76,8 +87,8 @@ pub fn parse_datetime(s: &str) -> Result<(NaiveDateTime, NaiveDateTime), String>
         }
         None => {
             if s.len() >= 5 {
-                match parse_date_string(s, Local::now(), Dialect::Uk) {
-                    Ok(date_time) => {
+                match parse_free_form(s) {
+                    Some(date_time) => {
                         let date_time = date_time.naive_local();
                         let finish = if date_time.hour() == 0
                             && date_time.minute() == 0
